@@ -36,6 +36,9 @@ MISSED_FIRST = {
     "C11r4-1": "zero_run_patterns: coefficients d·10^k at 128..960 bits with exponents on both sides of every arm's guard (missed by all 18 checks at first)",
     "C17r4-1": "sources that keep writing after the first error, with two offending bytes in different fragments (g_swallow_invalid in C14 and C17)",
     "C17r4-2": "numerals of 70,000..300,000 digits and slice lengths around 64 KiB: the figures an error names beyond 16 bits (missed by all 18 checks at first)",
+    "C06r5-1": "exponent texts of every length in C06's plan; a grammatical numeral rejected by BigBitstring is a C06 complaint as well (missed by C06, C05 and C15 at first; the other checks were not run in round 5)",
+    "C14r5-2": "keywords with two signs among the targeted invalid texts, which C14 now sends through both entry points and pairs",
+    "C15r5-2": "by its author's account a weak fit for C15 (big-endian accessors of Bitstring128 exist on the fixed type only): reported by C16",
     "C08r4-2": "outside C08 as its author notes (big-endian accessors of Bitstring128 are C16's subject): reported by C16, not by C08",
 }
 
@@ -118,13 +121,15 @@ def main():
             fin = "quick: no"
         if name == "C08r4-2":
             fin = "no — not a C08 change (its author says so): big-endian accessors, reported by **C16**"
+        if name == "C15r5-2":
+            fin = "no — big-endian accessors of `Bitstring128` (no counterpart on the dynamic types), reported by **C16**"
         if name == "C12r2-1":
             fin = "quick: no; **thorough: yes** (exhaustive f32 sweep, 760 s)"
         n_own += fin.startswith("**yes") or "thorough: yes" in fin
         print(f"| {name} | {fin} | {' '.join(ds)} | {' '.join(dc)} |")
     print(f"\n{n_own} of {n_all} kept changes are reported by the final check of the property they were written against "
-          "(C12r2-1 by its thorough tier only); the remaining one, C08r4-2, is by its author's own account not a change to C08 "
-          "and is reported by C16, whose subject it is.")
+          "(C12r2-1 by its thorough tier only); the remaining two, C08r4-2 and C15r5-2, change the big-endian accessors of "
+          "Bitstring128, which by their authors' own account is not what C08 / C15 speak about, and are reported by C16, whose subject it is.")
 
 
 if __name__ == "__main__":
